@@ -139,6 +139,7 @@ type Net struct {
 	accept    chan *Link
 	triggers  []*Trigger
 	dials     int
+	dialVT    []time.Time
 	closed    bool
 }
 
@@ -176,6 +177,13 @@ func (n *Net) Arm(t Trigger) {
 // Dials returns the number of dial attempts so far.
 func (n *Net) Dials() int { n.mu.Lock(); defer n.mu.Unlock(); return n.dials }
 
+// DialTimes returns time.Now() (virtual inside a bubble) at the start of every dial attempt.
+func (n *Net) DialTimes() []time.Time {
+	n.mu.Lock()
+	defer n.mu.Unlock()
+	return append([]time.Time(nil), n.dialVT...)
+}
+
 // Links returns all links created so far.
 func (n *Net) Links() []*Link {
 	n.mu.Lock()
@@ -211,6 +219,7 @@ func (n *Net) Dialer() transport.Dialer {
 	return transport.DialerFunc(func(cfg transport.DialConfig) (transport.Transport, error) {
 		n.mu.Lock()
 		n.dials++
+		n.dialVT = append(n.dialVT, time.Now())
 		dn := n.dials
 		delay := n.dialDelay
 		hook := n.dialHook
